@@ -800,7 +800,7 @@ func (h *c20H) final() {
 		h.violate("at rest: reloading is still set", h.trace)
 	}
 	if s.suppression != 0 {
-		h.violate(fmt.Sprintf("at rest: muting of node-failure reports not lifted (suppression counter = %d)", s.suppression), h.trace)
+		h.violate("at rest: muting of node-failure reports not lifted (suppression counter is not back to 0)", map[string]any{"counter": s.suppression, "trace": h.trace})
 	}
 	for i, a := range h.answered {
 		if !a {
